@@ -280,6 +280,10 @@ def canvas_validate(pid, v, scs, name, count_tags, workers=12, timeout=3000, onl
                 if "<= a" in msg:
                     v.violation(sc, {"tag": "C18", "via": "sw-composite debug assertion: " + msg, "call_index": tup[3], "op": tup[4],
                                      "sig": canvas_sig(sc, "C18", tup[4], tup[3], msg)})
+    bc = blitter_cells(scs)
+    tot = v.extra.setdefault("blitter_decision_table", {})
+    for k, n in bc.items():
+        tot[k] = tot.get(k, 0) + n
     rc = sum(r.get("rec_checked", 0) for r in recs)
     if rc:
         v.extra["recorded_states_reproduced"] = v.extra.get("recorded_states_reproduced", 0) + rc
@@ -323,6 +327,38 @@ def repo_test_scenarios(pid, v):
     v.assumptions.append("recorded executions of the repository's unit tests (src/verif_trace.rs hooks) are replayed by the harness, which must "
                          "reproduce every recorded pixel state, and validated like generated scenarios")
     return scs
+
+
+def blitter_cells(scs):
+    """Decision table of choose_blitter / composite as exercised by canvas scenarios: for every drawing call, is a clip path
+    open, is a layer open, is the blend mode SrcOver, and which call it is.  Counts per cell go into the evidence."""
+    cells = {}
+    for sc in scs:
+        if sc.get("fam") != "canvas":
+            continue
+        stack = []
+        for c in sc.get("calls", []):
+            op = c.get("op")
+            if op in ("push_clip", "push_clip_rect"):
+                stack.append("path" if op == "push_clip" else "rect")
+            elif op == "push_layer":
+                stack.append("layer")
+            elif op == "pop_clip":
+                for k in range(len(stack) - 1, -1, -1):
+                    if stack[k] in ("path", "rect"):
+                        del stack[k]
+                        break
+            elif op == "pop_layer":
+                for k in range(len(stack) - 1, -1, -1):
+                    if stack[k] == "layer":
+                        del stack[k]
+                        break
+            if op in ("fill", "fill_rect", "stroke", "draw_image_at", "draw_image_with_size_at", "mask", "clear", "pop_layer"):
+                mode = c.get("opts", {}).get("blend", "SrcOver") if isinstance(c.get("opts"), dict) else "SrcOver"
+                key = "%s/%s/%s/%s" % (op, "clip-path" if "path" in stack else ("clip-rect" if "rect" in stack else "no-clip"),
+                                       "in-layer" if "layer" in stack else "on-surface", "SrcOver" if mode == "SrcOver" else "other-mode")
+                cells[key] = cells.get(key, 0) + 1
+    return cells
 
 
 def canvas_gen(pid, v, focus, D, ndraw, draws=1, initk="distinct", simulate=None, depth=None, seed=None, salt=0, size=(5, 5)):
@@ -670,6 +706,36 @@ def c19(tier, seed):
     return v.finish()
 
 
+def shader_cells(scs):
+    """Decision table of choose_shader for image sources: extend x filter x (total map an integer translation?) x (alpha < 1?).
+    Returns the number of scenarios per cell (a cell nobody visits is a vacuity warning in the evidence)."""
+    from fractions import Fraction
+    cells = {}
+    for sc in scs:
+        src = sc.get("src", {})
+        if src.get("kind") != "image" or sc.get("via", "fill") != "fill":
+            continue
+
+        def mat(o):
+            d = o.get("mden", 1)
+            try:
+                return [Fraction(x, d) for x in o["m"]]
+            except Exception:
+                return None
+        a, b = mat(sc["ctm"]), mat(src) if "m" in src else [Fraction(x) for x in (1, 0, 0, 1, 0, 0)]
+        if a is None or b is None:
+            continue
+        # total = inverse(ctm) then source transform; an integer translation iff both linear parts are the identity and
+        # the combined offset is integral
+        ident = a[:4] == [1, 0, 0, 1] and b[:4] == [1, 0, 0, 1]
+        integer = ident and (b[4] - a[4]).denominator == 1 and (b[5] - a[5]).denominator == 1
+        al = sc.get("alpha", [1, 1])
+        alpha_lt1 = isinstance(al, list) and Fraction(al[0], al[1]) < 1
+        key = "%s/%s/%s/%s" % (src.get("extend", "Pad"), src.get("filter", "Nearest"), "int-translation" if integer else "general", "alpha<1" if alpha_lt1 else "alpha=1")
+        cells[key] = cells.get(key, 0) + 1
+    return cells
+
+
 @prop("C13")
 def c13(tier, seed):
     v = Verdicts("C13", tier, seed)
@@ -683,6 +749,13 @@ def c13(tier, seed):
     v.add_tlc(g)
     v.exhaustive = th
     scs += drive("C13", "shade-image", seed, 4000 if th else 600)
+    cells = shader_cells(scs)
+    v.extra["shader_decision_table"] = cells
+    missing = [k for k in ("%s/%s/%s/%s" % (e, f, t, a) for e in ("Pad", "Repeat") for f in ("Nearest", "Bilinear")
+                           for t in ("int-translation", "general") for a in ("alpha=1", "alpha<1")) if k not in cells]
+    if missing:
+        v.extra["shader_cells_not_visited"] = missing
+        log("[C13] WARNING: choose_shader cells without a scenario: %s" % missing)
     simple_validate("C13", v, scs, "all", "Trace_Shade", sigfn=lambda sc, tup: {"fam": "shade", "kind": "image", "via": sc.get("via")})
     v.samples = [scs[0], scs[-1]]
     return v.finish()
